@@ -27,6 +27,10 @@ type ExecResult struct {
 	Ops      []string
 	Trace    *Trace
 	Compared int // number of (query, answer) and (key, value) pairs compared between A and B
+	// Outside: outcomes of a scenario whose blocks violate one BlockOK clause on purpose
+	Outside []string
+	// emptiedAt: system contract address -> number of the reverted block that had emptied it (K2)
+	emptiedAt map[string]uint64
 }
 
 func (r *ExecResult) hit(s string)          { r.Hits[s]++ }
@@ -106,6 +110,20 @@ func implicitClasses(sc *Scenario) map[string]bool {
 	return out
 }
 
+// heightIsEmptiedBlock: the deployment height A has for a system contract is the number of a
+// reverted block that had emptied that contract (the exact cause of the known defect).
+func heightIsEmptiedBlock(r *ExecResult, addr, heightHex string) bool {
+	n, ok := r.emptiedAt[addr]
+	if !ok {
+		return false
+	}
+	var h uint64
+	if _, err := fmt.Sscanf(heightHex, "%x", &h); err != nil {
+		return false
+	}
+	return h == n
+}
+
 // newStateContractRecord decodes the text of a core/state contract record ("x" + hex of
 // nonce(32) classHash(32) [storageRoot(32)] deployHeight(8)) into (rest, deployHeight).
 func splitContractRecord(v string) (string, string, bool) {
@@ -182,7 +200,7 @@ func compareNodes(r *ExecResult, a, b *Node, u *Universe, when string, newState 
 			addr := "0x" + strings.TrimLeft(strings.TrimPrefix(d.Key, "Contract/"), "0")
 			ra, ha, ok1 := splitContractRecord(d.A)
 			rb, hb, ok2 := splitContractRecord(d.B)
-			if ok1 && ok2 && ra == rb && ha != hb && isSysAddrText(addr) {
+			if ok1 && ok2 && ra == rb && ha != hb && isSysAddrText(addr) && heightIsEmptiedBlock(r, addr, ha) {
 				deployHeightOnly[addr] = true
 				add(sigSysHeight, d)
 				continue
@@ -191,7 +209,7 @@ func compareNodes(r *ExecResult, a, b *Node, u *Universe, when string, newState 
 		if bucket == "ContractDeploymentHeight" && !newState && d.A != "<absent>" && d.B != "<absent>" {
 			// legacy backend with system-contract purge in Update (proposed C01 repair): same defect
 			addr := "0x" + strings.TrimLeft(strings.TrimPrefix(d.Key, "ContractDeploymentHeight/"), "0")
-			if isSysAddrText(addr) {
+			if isSysAddrText(addr) && heightIsEmptiedBlock(r, addr, strings.TrimPrefix(d.A, "x")) {
 				deployHeightOnly[addr] = true
 				add(sigSysHeight, d)
 				continue
@@ -309,6 +327,11 @@ func checkReverseDiff(r *ExecResult, n *Node, chain []*lib.BlockSpec, when strin
 		}
 	}
 	for a := range head.ReplacedClasses {
+		if _, deployedNow := head.DeployedContracts[a]; deployedNow {
+			// the contract did not exist before the block; the entry is unused (the contract is
+			// purged) and the two backends fill it differently (legacy: the deployed class, new: 0)
+			continue
+		}
 		var want felt.Felt
 		if c := before.Contracts[a]; c != nil {
 			want = c.Class
@@ -341,22 +364,78 @@ func sysContractEmptyButTouched(specs []*lib.BlockSpec) bool {
 	return false
 }
 
-// classifyRevertError gives the signature of a failing RevertHead.
-func classifyRevertError(err error, newState bool, chainBefore []*lib.BlockSpec) string {
+const sigSysHeight = "system-contract-deploy-height-differs-after-revert"
+
+const sigK1 = "legacy-revert-fails-when-system-contract-storage-is-empty"
+
+// classifyRevertError gives the signature of a failing RevertHead. k1Candidate says that the
+// failure has the shape of the known legacy defect (old-root verification failed while a system
+// contract that was written has empty storage); it is filed under that known signature only if the
+// Lean model (the code as found) predicts exactly this failure at this step, see main.go.
+func classifyRevertError(err error, newState bool, chainBefore []*lib.BlockSpec) (sig string, k1Candidate bool) {
 	msg := err.Error()
-	if !newState && strings.Contains(msg, "does not match the expected root") && len(chainBefore) > 0 &&
-		sysContractEmptyButTouched(chainBefore[:len(chainBefore)-1]) {
-		// legacy backend: purgesystemContracts removes a system contract whose storage is empty
-		// although it existed (with empty storage) before the reverted block
-		return "legacy-revert-fails-when-system-contract-storage-is-empty"
-	}
 	if strings.HasPrefix(msg, "panic:") {
-		return "revert-panics-on-stored-block"
+		return "revert-panics-on-stored-block", false
 	}
-	return "revert-fails-on-stored-block"
+	if !newState && strings.Contains(msg, "does not match the expected root") && !strings.Contains(msg, "verify state update root") &&
+		len(chainBefore) > 0 && sysContractEmptyButTouched(chainBefore[:len(chainBefore)-1]) {
+		return "revert-fails-on-stored-block", true
+	}
+	return "revert-fails-on-stored-block", false
 }
 
-const sigSysHeight = "system-contract-deploy-height-differs-after-revert"
+// emptiedSystemContracts: the system contracts that the head block of chain leaves with empty
+// storage although they had storage before it (the cause of the known deploy-height defect when
+// that block is reverted).
+func emptiedSystemContracts(chain []*lib.BlockSpec) []string {
+	if len(chain) == 0 {
+		return nil
+	}
+	before := lib.NewAbsState()
+	for i, s := range chain[:len(chain)-1] {
+		before.Apply(uint64(i), s.Diff, s.Classes)
+	}
+	after := before.Clone()
+	head := chain[len(chain)-1]
+	after.Apply(uint64(len(chain)-1), head.Diff, head.Classes)
+	var out []string
+	for _, a := range []*felt.Felt{lib.F(1), lib.F(2)} {
+		cb, ca := before.Contracts[*a], after.Contracts[*a]
+		if cb != nil && len(cb.Storage) > 0 && (ca == nil || len(ca.Storage) == 0) {
+			out = append(out, a.String())
+		}
+	}
+	return out
+}
+
+// rejected turns "a node refused a block the source node (same backend) finalised" into a
+// finding; a panic is its own finding.
+func (r *ExecResult) rejected(who string, what string, err error) {
+	if strings.HasPrefix(err.Error(), "panic:") {
+		r.find("store-panics", fmt.Sprintf("%s: Store of %s panicked: %v", who, what, err), map[string]string{"error": err.Error()})
+		return
+	}
+	r.find("finalised-block-rejected", fmt.Sprintf("%s rejects %s, which a source node of the same backend finalised: %v", who, what, err),
+		map[string]string{"error": err.Error()})
+}
+
+const sigDupDeclared = "legacy-revert-fails-on-duplicate-declared-class"
+
+func hasDuplicateDeclared(s *lib.BlockSpec) bool {
+	seen := map[felt.Felt]bool{}
+	for _, c := range s.Diff.DeclaredV0Classes {
+		if seen[*c] {
+			return true
+		}
+		seen[*c] = true
+	}
+	for c := range s.Diff.DeclaredV1Classes {
+		if seen[c] {
+			return true
+		}
+	}
+	return false
+}
 
 const sigStaleWindow = "stale-persisted-filter-window-after-revert"
 
@@ -424,6 +503,11 @@ func execScenario(sc *Scenario, opt lib.GenOptions, withTrace bool) *ExecResult 
 	for i, spec := range sc.Main {
 		b, err := line.Next(spec)
 		if err != nil {
+			parent := &felt.Zero
+			if h := line.cg.Head(); h != nil {
+				parent = h.Block.Hash
+			}
+			r.Trace.storeRefused(a, uint64(i), parent, spec, err)
 			r.Skipped = fmt.Sprintf("main block %d cannot be finalised: %v", i, err)
 			return r
 		}
@@ -432,7 +516,7 @@ func execScenario(sc *Scenario, opt lib.GenOptions, withTrace bool) *ExecResult 
 		}
 		u.Add(b)
 		if err := storeOn(a, b, spec); err != nil {
-			r.Skipped = fmt.Sprintf("main block %d rejected by A: %v", i, err)
+			r.rejected("A", fmt.Sprintf("main block %d", i), err)
 			return r
 		}
 		r.op("A.store main[%d] %s", i, specSummary(spec))
@@ -457,9 +541,14 @@ func execScenario(sc *Scenario, opt lib.GenOptions, withTrace bool) *ExecResult 
 			r.Trace.revert(a, err)
 			r.op("A.revert (block %d)", len(chain)-1)
 			if err != nil {
-				sig := classifyRevertError(err, sc.NewState, chain)
+				sig, k1 := classifyRevertError(err, sc.NewState, chain)
+				if !sc.NewState && hasDuplicateDeclared(chain[len(chain)-1]) && strings.Contains(err.Error(), "remove declared classes") &&
+					strings.Contains(err.Error(), "key not found") {
+					sig = sigDupDeclared
+				}
 				r.find(sig, fmt.Sprintf("RevertHead of block %d, which the node had stored, failed: %v", len(chain)-1, err),
-					map[string]any{"block": len(chain) - 1, "error": err.Error()})
+					map[string]any{"block": len(chain) - 1, "error": err.Error(), "k1_candidate": k1 && sig == "revert-fails-on-stored-block",
+						"revert_step": r.Trace.lastRevert()})
 				r.hit("revert-error")
 				return r
 			}
@@ -470,6 +559,12 @@ func execScenario(sc *Scenario, opt lib.GenOptions, withTrace bool) *ExecResult 
 			for _, ft := range specFeatures(chain[len(chain)-1], chain[:len(chain)-1]) {
 				r.hit("reverted-block:" + ft)
 			}
+			for _, sa := range emptiedSystemContracts(chain) {
+				if r.emptiedAt == nil {
+					r.emptiedAt = map[string]uint64{}
+				}
+				r.emptiedAt[sa] = uint64(len(chain) - 1)
+			}
 			chain = chain[:len(chain)-1]
 		}
 		p := len(chain)
@@ -478,7 +573,7 @@ func execScenario(sc *Scenario, opt lib.GenOptions, withTrace bool) *ExecResult 
 		r.Trace.newNode(b.Name)
 		for i := 0; i < p; i++ {
 			if err := storeOn(b, line.cg.Bundles[i], chain[i]); err != nil {
-				r.Skipped = fmt.Sprintf("prefix block %d rejected by B: %v", i, err)
+				r.rejected("B", fmt.Sprintf("prefix block %d", i), err)
 				return r
 			}
 		}
@@ -510,13 +605,18 @@ func execScenario(sc *Scenario, opt lib.GenOptions, withTrace bool) *ExecResult 
 		for j, spec := range rd.Fork {
 			bd, err := line.Next(spec)
 			if err != nil {
+				parent := &felt.Zero
+				if h := line.cg.Head(); h != nil {
+					parent = h.Block.Hash
+				}
+				r.Trace.storeRefused(a, uint64(len(chain)), parent, spec, err)
 				r.Skipped = fmt.Sprintf("round %d fork block %d cannot be finalised: %v", ri, j, err)
 				return r
 			}
 			u.Add(bd)
 			errB := storeOn(b, bd, spec)
 			if errB != nil {
-				r.Skipped = fmt.Sprintf("round %d fork block %d rejected by B: %v", ri, j, errB)
+				r.rejected("B", fmt.Sprintf("round %d fork block %d", ri, j), errB)
 				return r
 			}
 			if j == 0 {
@@ -525,16 +625,17 @@ func execScenario(sc *Scenario, opt lib.GenOptions, withTrace bool) *ExecResult 
 			if j == 0 && sc.FailedOps {
 				if attempted, err := a.StoreWrongRoot(bd); attempted {
 					r.op("A.store of fork%d[0] with a wrong state root (must fail)", ri)
+					r.Trace.storeWrongRoot(a, bd, err)
 					if err == nil {
-						r.Skipped = "a block with a wrong state root was stored (C02's property)"
+						r.find("block-with-wrong-state-root-stored", "Blockchain.Store accepted a block whose new state root is not the root of the updated state", nil)
 						return r
 					}
 					r.hit("failed-op:store-wrong-root")
 				}
 				if len(line.cg.Bundles) >= 2 {
 					// a block that does not extend the head (its parent is stored already)
-					if err := a.Store(line.cg.Bundles[len(line.cg.Bundles)-2]); err == nil {
-						r.Skipped = "a block that does not extend the head was stored (C02's property)"
+					if err := storeOn(a, line.cg.Bundles[len(line.cg.Bundles)-2], nil); err == nil {
+						r.find("block-not-extending-head-stored", "Store accepted a block whose number/parent do not extend the head", nil)
 						return r
 					}
 					r.op("A.store of an already stored block (must fail)")
